@@ -230,4 +230,8 @@ func factsBlock() {
 	emitStr("partialThresholdAge", "pkg/compact/clean.go: const PartialUploadThresholdAge", thr)
 	gm := body(fn(cnf, "", "getOldestModifiedTime"))
 	emitStr("partialLastModifiedCond", "pkg/compact/clean.go getOldestModifiedTime: which modification time wins", firstIfCond(gm, "lastModifiedTime)"))
+
+	// ---- C35: lazyOverlapChecker.sync skips directories without meta.json
+	emitStr("shipperCheckerSkipsPartial", "pkg/shipper/shipper.go lazyOverlapChecker.sync: the condition under which a failed DownloadMeta is skipped",
+		firstIfCond(body(fn(sf, "lazyOverlapChecker", "sync")), "IsObjNotFoundErr"))
 }
